@@ -96,7 +96,7 @@ fn one_slice(rep: &mut Report, rec: &mut Rec, len: usize, a: Option<i64>, b: Opt
 /// The slice inside a larger expression: what follows (a projection's right-hand
 /// side, a pipe, a flatten, a filter, a function call) and what precedes it must
 /// not change which elements are selected or their order.
-const CTX_FORMS: &[&str] = &["id", "bar", "flat", "filter", "first", "last", "length", "star", "again", "falsy", "lit"];
+const CTX_FORMS: &[&str] = &["id", "bar", "flat", "filter", "first", "last", "length", "star", "again", "falsy", "lit", "sorted", "rev2", "mapid", "paren-star", "window", "window"];
 
 /// Element i of the "falsy" documents: every falsy JSON value, zero, and two truthy ones;
 /// position 7 holds null, which a slice (a projection) drops from its result.
@@ -114,7 +114,28 @@ fn one_ctx(rep: &mut Report, rec: &mut Rec, form: &str, len: usize, a: Option<i6
         Some(s) => format!("[{}:{}:{}]", f(a), f(b), s),
     };
     let ints = arr(len);
+    // a second window applied to the first one's result; its parameters are a function of the first
+    let hsh = refimpl::rng::fnv(format!("w {} {:?} {:?} {:?}", len, a, b, c).as_bytes());
+    let w1 = [None, Some(0i64), Some(1), Some(-1), Some(2), Some(-3)][(hsh % 6) as usize];
+    let w2 = [None, Some(1i64), Some(2), Some(5), Some(-1), Some(0)][((hsh / 6) % 6) as usize];
+    let w3 = [None, Some(1i64), Some(-1), Some(2), Some(-2)][((hsh / 36) % 5) as usize];
+    let form_owned;
+    let form = if form == "window" {
+        form_owned = format!("window:{}:{}:{}", part(w1), part(w2), part(w3));
+        form_owned.as_str()
+    } else {
+        form
+    };
     let (doc, text) = match form {
+        // the array being sliced is a temporary (a function result, a parenthesised projection)
+        "sorted" => (Value::Array((0..len as i64).rev().map(Value::from).collect()), format!("sort(@){}", sl)),
+        "rev2" => (ints, format!("reverse(reverse(@)){}", sl)),
+        "mapid" => (ints, format!("map(&@, @){}", sl)),
+        "paren-star" => (ints, format!("(@[*]){}", sl)),
+        w if w.starts_with("window:") => {
+            let g = |x: Option<i64>| x.map(|v| v.to_string()).unwrap_or_default();
+            (ints, format!("@{} | [{}:{}:{}]", sl, g(w1), g(w2), g(w3.or(Some(1)))))
+        }
         "id" => (Value::Array((0..len as i64).map(|i| json!({"id": i, "pad": "x"})).collect()), format!("@{}.id", sl)),
         "bar" => (json!({"foo": {"bar": ints}}), format!("foo.bar{}", sl)),
         "flat" => (ints, format!("@{}[]", sl)),
@@ -141,6 +162,10 @@ fn one_ctx(rep: &mut Report, rec: &mut Rec, form: &str, len: usize, a: Option<i6
     let _ = writeln!(rec.out, "P {} {} {} {} {} | {}", form, len, part(a), part(b), part(c), shown);
     let idx = slice_indices(len as i128, a.map(|x| x as i128), b.map(|x| x as i128), step as i128);
     let want = match form {
+        w if w.starts_with("window:") => {
+            let inner = slice_indices(idx.len() as i128, w1.map(|x| x as i128), w2.map(|x| x as i128), w3.unwrap_or(1) as i128);
+            format!("[{}]", inner.iter().map(|i| idx[*i as usize].to_string()).collect::<Vec<_>>().join(","))
+        }
         "falsy" => format!("[{}]", idx.iter().map(|i| FALSY_KINDS[*i as usize % 8]).filter(|k| *k != "null").collect::<Vec<_>>().join(",")),
         "first" => idx.first().map(|i| i.to_string()).unwrap_or_else(|| "N".to_string()),
         "last" => idx.last().map(|i| i.to_string()).unwrap_or_else(|| "N".to_string()),
